@@ -37,6 +37,12 @@ func main() {
 				c = append(c, explore.Config{Name: "cs " + k, MaxDepth: d["cs"], MaxDev: -1})
 			}
 			c = append(c, pitConfigs(th)...)
+			ad := 3
+			if th {
+				ad = 4
+			}
+			c = append(c, explore.Config{Name: "audit(no dedup) pit br cs nametree", BuildName: "pit br cs nametree", MaxDepth: ad, MaxDev: -1, NoDedup: true})
+			c = append(c, explore.Config{Name: "audit(no dedup) cs 1", BuildName: "cs 1", MaxDepth: ad + 2, MaxDev: -1, NoDedup: true})
 			return c
 		},
 		Budget: func(th bool) time.Duration {
